@@ -127,7 +127,12 @@ def renew_check(leg, sb, received, tag, replay):
     for mac, addr in list(received.items())[:4]:
         xid += 2
         opts = [(50, bytes(int(x) for x in addr.split("."))), (55, bytes([1, 3, 6, 51]))]
-        fr, ack = dhcplib.exchange(sb.client, mac, 3, xid, options=opts, wait=2.0)
+        # a client retransmits an unanswered REQUEST; silence counts only when all three transmissions went unanswered
+        for attempt in range(3):
+            fr, ack = dhcplib.exchange(sb.client, mac, 3, xid, options=opts, wait=2.0 + 2.0 * attempt)
+            if ack:
+                break
+            leg.count("renewal_retransmissions", 1)
         leg.eval()
         if not ack:
             leg.violation("C18/renewal-unanswered-after-restart", "%s: %s asking for %s" % (tag, mac.hex(), addr), replay)
